@@ -594,6 +594,14 @@ fn main() {
     //     D9: RowEchelon*::new on a wide full-rank matrix
     ctx.case("rank_i", "nt shape=1x2 ent=tiny kind=regress", || String::from("1 2 1 0"),
         || vmat::<i64>(&vec![vec![1, 0]]).rank().to_string());
+    //     F-C18-overflow (known finding, not repaired): the i64 gcd elimination overflows on a
+    //     6x4 matrix with |x| <= 10 although the exact answer (rank 4) fits an i64
+    {
+        let ov: IMat = vec![vec![-4, -7, 8, -5], vec![7, -7, 0, 7], vec![-10, 6, 2, 4],
+                            vec![-8, 3, 2, -5], vec![9, -1, -1, 2], vec![0, -10, -4, 1]];
+        ctx.case("rank_i", "nt overflow-panic shape=6x4 ent=small kind=regress",
+            || format!("6 4{}", enc_imat(&ov)), || vmat::<i64>(&ov).rank().to_string());
+    }
     {
         let wide: IMat = vec![vec![1, 0]];
         let tall: IMat = vec![vec![1], vec![0]];
